@@ -118,6 +118,18 @@ pub fn run(args: &Args) -> Report {
             }
         }
     }
+    // the smallest drivers: every interleaving modulo commutation of the two endpoints' steps (sleep sets)
+    for (a, b) in [((1u32, 1u32), (1u32, 1u32)), ((2, 2), (1, 1)), ((1, 2), (2, 1))] {
+        let streams = vec![StreamSpec {
+            tag: 1,
+            opener: 0,
+            opener_plan: EndPlan::Seq(vec![Op::Burst(3, 1), Op::Shutdown, Op::ReadToEof(1)]),
+            acceptor_plan: EndPlan::Seq(vec![Op::ReadToEof(1), Op::W(1), Op::Shutdown]),
+        }];
+        let cfg = XferCfg { a, b, cap: 0, streams, stream_buffer: 4, one_byte_frames: true, dgram_pingpong: 0, dgram_buffer: 4, drop_mux_when_writers_done: None, horizon: 4000 };
+        let label = format!("tiny, all interleavings | {}", cfg.describe());
+        cases.push(Case { try_unbounded: true, max_k: 2, label, exec: Box::new(move |r| xfer::exec(&cfg, &or, r)) });
+    }
     let plan = Plan {
         ks: if thorough { vec![0, 1, 2, 3] } else { vec![0, 1, 2] },
         env: 0,
